@@ -28,8 +28,12 @@
    * one forwarder per subscriber: [fwd] = Idle (outer select) | Holding v (inner select, blocked
      on the user's channel) | ExitWantLock (returned; closeEventCh already closed; the deferred
      function waits for b.lock) | Exited;
-   * the Close caller: [cl] = CWantLock | CWaitFwd (wg.Wait) | CReturned.  One Close call is
-     modelled (a second one is a CAS failure followed by the same barrier and wait).
+   * Close callers: [cl] = CWantLock | CWaitFwd (wg.Wait) | CReturned, and [cl2] for a SECOND,
+     overlapping Close call (the same code: in Fixed its CAS fails if the other came first, then
+     the same barrier and wait).
+   * a Subscribe call's context may already have ended when the call gets the lock
+     ([CancelPending id] marks it): the subscription is registered all the same and its
+     forwarder leaves at its first select.
    [closed] stands for both the atomic flag and closeCh: they are set by adjacent statements of
    Close with no blocking operation between them, and every behaviour inside that window (flag
    set, channel still open) is also a behaviour of the model just before or just after the
@@ -77,8 +81,10 @@ Record st := mkSt {
   lock : lockst;                 (* b.lock: Free, or held by a Broadcast in its loop *)
   closed : bool;                 (* b.closed / closeCh closed *)
   cl : closepc;
+  cl2 : closepc;                 (* a second, overlapping Close call *)
   bq : list val;                 (* Broadcast calls waiting for the lock *)
   pend_subs : list (Z * bool);   (* Subscribe calls waiting for the lock: call id, prompt consumer *)
+  pend_dead : list Z;            (* ids of Subscribe calls whose context has already ended *)
   (* ghost *)
   fanout : list val;
   issued : list val;
@@ -86,31 +92,35 @@ Record st := mkSt {
   sret : list Z
 }.
 
-Definition init : st := mkSt [] Free false CNone [] [] [] [] [] [].
+Definition init : st := mkSt [] Free false CNone CNone [] [] [] [] [] [] [].
 
 (* ---------------------------------------------------------------------------------------- *)
 (* setters *)
 
 Definition set_subs (s : st) (x : list sub) : st :=
-  mkSt x (lock s) (closed s) (cl s) (bq s) (pend_subs s) (fanout s) (issued s) (bret s) (sret s).
+  mkSt x (lock s) (closed s) (cl s) (cl2 s) (bq s) (pend_subs s) (pend_dead s) (fanout s) (issued s) (bret s) (sret s).
 Definition set_lock (s : st) (x : lockst) : st :=
-  mkSt (subs s) x (closed s) (cl s) (bq s) (pend_subs s) (fanout s) (issued s) (bret s) (sret s).
+  mkSt (subs s) x (closed s) (cl s) (cl2 s) (bq s) (pend_subs s) (pend_dead s) (fanout s) (issued s) (bret s) (sret s).
 Definition set_closed (s : st) (x : bool) : st :=
-  mkSt (subs s) (lock s) x (cl s) (bq s) (pend_subs s) (fanout s) (issued s) (bret s) (sret s).
+  mkSt (subs s) (lock s) x (cl s) (cl2 s) (bq s) (pend_subs s) (pend_dead s) (fanout s) (issued s) (bret s) (sret s).
 Definition set_cl (s : st) (x : closepc) : st :=
-  mkSt (subs s) (lock s) (closed s) x (bq s) (pend_subs s) (fanout s) (issued s) (bret s) (sret s).
+  mkSt (subs s) (lock s) (closed s) x (cl2 s) (bq s) (pend_subs s) (pend_dead s) (fanout s) (issued s) (bret s) (sret s).
+Definition set_cl2 (s : st) (x : closepc) : st :=
+  mkSt (subs s) (lock s) (closed s) (cl s) x (bq s) (pend_subs s) (pend_dead s) (fanout s) (issued s) (bret s) (sret s).
 Definition set_bq (s : st) (x : list val) : st :=
-  mkSt (subs s) (lock s) (closed s) (cl s) x (pend_subs s) (fanout s) (issued s) (bret s) (sret s).
+  mkSt (subs s) (lock s) (closed s) (cl s) (cl2 s) x (pend_subs s) (pend_dead s) (fanout s) (issued s) (bret s) (sret s).
 Definition set_pend_subs (s : st) (x : list (Z * bool)) : st :=
-  mkSt (subs s) (lock s) (closed s) (cl s) (bq s) x (fanout s) (issued s) (bret s) (sret s).
+  mkSt (subs s) (lock s) (closed s) (cl s) (cl2 s) (bq s) x (pend_dead s) (fanout s) (issued s) (bret s) (sret s).
+Definition set_pend_dead (s : st) (x : list Z) : st :=
+  mkSt (subs s) (lock s) (closed s) (cl s) (cl2 s) (bq s) (pend_subs s) x (fanout s) (issued s) (bret s) (sret s).
 Definition set_fanout (s : st) (x : list val) : st :=
-  mkSt (subs s) (lock s) (closed s) (cl s) (bq s) (pend_subs s) x (issued s) (bret s) (sret s).
+  mkSt (subs s) (lock s) (closed s) (cl s) (cl2 s) (bq s) (pend_subs s) (pend_dead s) x (issued s) (bret s) (sret s).
 Definition set_issued (s : st) (x : list val) : st :=
-  mkSt (subs s) (lock s) (closed s) (cl s) (bq s) (pend_subs s) (fanout s) x (bret s) (sret s).
+  mkSt (subs s) (lock s) (closed s) (cl s) (cl2 s) (bq s) (pend_subs s) (pend_dead s) (fanout s) x (bret s) (sret s).
 Definition set_bret (s : st) (x : list val) : st :=
-  mkSt (subs s) (lock s) (closed s) (cl s) (bq s) (pend_subs s) (fanout s) (issued s) x (sret s).
+  mkSt (subs s) (lock s) (closed s) (cl s) (cl2 s) (bq s) (pend_subs s) (pend_dead s) (fanout s) (issued s) x (sret s).
 Definition set_sret (s : st) (x : list Z) : st :=
-  mkSt (subs s) (lock s) (closed s) (cl s) (bq s) (pend_subs s) (fanout s) (issued s) (bret s) x.
+  mkSt (subs s) (lock s) (closed s) (cl s) (cl2 s) (bq s) (pend_subs s) (pend_dead s) (fanout s) (issued s) (bret s) x.
 
 Definition sb_prompt (b : sub) (x : bool) : sub :=
   mkSub x (wants b) (buf b) (fwd b) (ctx_done b) (exit_closed b) (registered b) (received b) (start b).
@@ -131,7 +141,7 @@ Definition sb_received (b : sub) (x : list val) : sub :=
 
 (* a subscription that took effect while open / one dropped because the broadcaster was closed
    (no channels, no forwarder, not in b.eventChs) *)
-Definition new_sub (p : bool) (st0 : nat) : sub := mkSub p 0 [] Idle false false true [] st0.
+Definition new_sub (p : bool) (st0 : nat) (dead : bool) : sub := mkSub p 0 [] Idle dead false true [] st0.
 Definition dropped_sub (p : bool) (st0 : nat) : sub := mkSub p 0 [] Exited false true false [] st0.
 
 Fixpoint upd_nth {A} (i : nat) (x : A) (l : list A) : list A :=
@@ -161,15 +171,19 @@ Inductive ev :=
 | Want (i : nat)
 | WantAll (i : nat)
 | CloseCall
+| Close2Call              (* a second Close call, overlapping the first *)
+| CancelPending (id : Z)  (* the context passed to Subscribe call [id] ends (before that call got the lock) *)
 (* internal: steps of calls in progress and of the broadcaster's own goroutines *)
 | BcLock (j : nat) | BcSend | BcSkip | BcEnd
 | FwdTake (i : nat) | FwdDeliver (i : nat) | FwdSeeDone (i : nat) | FwdExitLocked (i : nat)
 | SubLocked (j : nat)
-| CloseLock | CloseWait.
+| CloseLock | CloseWait
+| Close2Lock | Close2Wait.
 
 Definition internal (e : ev) : bool :=
   match e with
-  | BcCall _ | SubCall _ _ | Cancel _ | Want _ | WantAll _ | CloseCall => false
+  | BcCall _ | SubCall _ _ | Cancel _ | Want _ | WantAll _ | CloseCall | Close2Call
+  | CancelPending _ => false
   | _ => true
   end.
 
@@ -203,6 +217,13 @@ Definition step (vr : variant) (s : st) (e : ev) : option st :=
       | CNone => Some (set_closed (set_cl s CWantLock) (is_fixed vr || closed s))
       | _ => None
       end
+  (* a second Close call runs the same code: in Fixed its CAS fails if the first came earlier *)
+  | Close2Call =>
+      match cl2 s with
+      | CNone => Some (set_closed (set_cl2 s CWantLock) (is_fixed vr || closed s))
+      | _ => None
+      end
+  | CancelPending id => Some (set_pend_dead s (id :: pend_dead s))
   (* Broadcast: b.lock.Lock(); if b.closed.Load() { return } *)
   | BcLock j =>
       match lock s, nth_error (bq s) j with
@@ -296,7 +317,8 @@ Definition step (vr : variant) (s : st) (e : ev) : option st :=
       | Free, Some (id, p) =>
           Some (set_sret (set_subs (set_pend_subs s (remove_nth j (pend_subs s)))
                                    (subs s ++ [if closed s then dropped_sub p (length (fanout s))
-                                               else new_sub p (length (fanout s))]))
+                                               else new_sub p (length (fanout s))
+                                                            (memz id (pend_dead s))]))
                          (sret s ++ [id]))
       | _, _ => None
       end
@@ -311,6 +333,17 @@ Definition step (vr : variant) (s : st) (e : ev) : option st :=
       match cl s with
       | CWaitFwd => if forallb (fun b => is_exited (fwd b)) (subs s)
                     then Some (set_cl s CReturned) else None
+      | _ => None
+      end
+  | Close2Lock =>
+      match cl2 s, lock s with
+      | CWantLock, Free => Some (set_closed (set_cl2 s CWaitFwd) true)
+      | _, _ => None
+      end
+  | Close2Wait =>
+      match cl2 s with
+      | CWaitFwd => if forallb (fun b => is_exited (fwd b)) (subs s)
+                    then Some (set_cl2 s CReturned) else None
       | _ => None
       end
   end.
@@ -348,7 +381,7 @@ Definition stuck (vr : variant) (s : st) : Prop :=
 (* some call has been issued and has not returned *)
 Definition call_pending (s : st) : Prop :=
   (exists v idx, lock s = Held v idx) \/ bq s <> [] \/ pend_subs s <> []
-  \/ cl s = CWantLock \/ cl s = CWaitFwd.
+  \/ cl s = CWantLock \/ cl s = CWaitFwd \/ cl2 s = CWantLock \/ cl2 s = CWaitFwd.
 
 (* back-pressure, the one legitimate reason for a call to wait: the Broadcast that holds the lock
    is at a subscriber that is ALIVE (context not done), whose 10-slot buffer is full and whose
@@ -372,7 +405,7 @@ Definition candidates (s : st) : list ev :=
   ++ map FwdExitLocked (seq 0 (length (subs s)))
   ++ map BcLock (seq 0 (length (bq s)))
   ++ map SubLocked (seq 0 (length (pend_subs s)))
-  ++ [CloseLock; CloseWait].
+  ++ [CloseLock; CloseWait; Close2Lock; Close2Wait].
 
 Definition enabledb (vr : variant) (s : st) (e : ev) : bool :=
   match step vr s e with Some _ => true | None => false end.
@@ -394,7 +427,8 @@ Definition close_cost (c : closepc) : nat :=
   match c with CNone => 0 | CWantLock => 2 | CWaitFwd => 1 | CReturned => 0 end.
 Definition measure (s : st) : nat :=
   length (bq s) * (3 * total_subs s + 3) + lock_cost s
-  + list_sum (map sub_cost (subs s)) + 4 * length (pend_subs s) + close_cost (cl s).
+  + list_sum (map sub_cost (subs s)) + 4 * length (pend_subs s) + close_cost (cl s)
+  + close_cost (cl2 s).
 
 Fixpoint quiesce_fuel (fuel : nat) (vr : variant) (s : st) : st :=
   match fuel with
@@ -431,3 +465,6 @@ Definition departure_schedule : list ev :=
   ++ bc_all 1 ++ [FwdTake 0%nat]
   ++ flat_map bc_all [2;3;4;5;6;7;8;9;10;11]
   ++ [BcCall 12; BcLock 0%nat; Cancel 0%nat].
+
+(* the defect with a SECOND Close piled on top: both Close calls wait for the lock for ever *)
+Definition wedge2_schedule : list ev := wedge_schedule ++ [Close2Call].
